@@ -323,6 +323,15 @@ func checkC15(R *Run) {
 	R.floor("acct-key-agree", 5)
 	R.floor("map-after-disk", 4)
 
+	// disk-follows-map (shared with C20's persist-before-ack): a mutator acknowledges only after the file operation
+	R.rule("disk-follows-map", "Create, Update and Delete reach a success return only after the file of the account has been renamed into place / removed (so that a restart from the files yields what the map holds)")
+	for _, fn := range []*ssa.Function{create, update, del} {
+		if fn == nil {
+			continue
+		}
+		R.check(P.persistingFns()[fn], "disk-follows-map", fname(fn), P.pos(fn.Pos()), "every success return is preceded by the file operation", "a success return is reachable without the account file having been written/renamed/removed: memory and disk diverge and the change is undone by a restart")
+	}
+
 	// ---- pw-hash-only
 	nPw := 0
 	for _, fn := range P.Funcs {
@@ -464,6 +473,40 @@ func checkC15(R *Run) {
 		R.check(ok, "acct-shape", "mobius.YAMLAccountManager.List", P.pos(l.Pos()), "ranges over the accounts map", "List does not enumerate the accounts map")
 	}
 	if n := R.mustFn("mobius.NewYAMLAccountManager"); n != nil {
+		// every matched file is loaded: no path through an iteration of the file loop skips the insertion
+		var ins *ssa.MapUpdate
+		eachInstr(n, func(i ssa.Instruction) {
+			if m, isM := i.(*ssa.MapUpdate); isM {
+				if f, isF := loadedField(m.Key); isF && f == "hotline.Account.Login" {
+					ins = m
+				}
+			}
+		})
+		complete := false
+		if ins != nil {
+			// the loop's element access (matches[i]) starts an iteration
+			var iterStart ssa.Instruction
+			eachInstr(n, func(i ssa.Instruction) {
+				if ia, isIA := i.(*ssa.IndexAddr); isIA && iterStart == nil {
+					if c := callValue(ia.X); c != nil && calleeName(&c.Call) == "path/filepath.Glob" {
+						iterStart = ia
+					}
+				}
+			})
+			if iterStart != nil {
+				// can the next iteration start without the insertion having happened?
+				complete = !reachesWithout(iterStart.Block(), instrIndex(iterStart)+1, iterStart, ins)
+				// and can the constructor return success from inside an iteration before inserting?
+				for _, ret := range returnsOf(n) {
+					if isSuccessReturn(ret) && reachesWithout(iterStart.Block(), instrIndex(iterStart)+1, ret, ins) && iterStart.Block().Dominates(ret.Block()) {
+						if reachableFrom(iterStart.Block(), nil)[iterStart.Block()] && reachableFrom(ret.Block(), nil)[iterStart.Block()] {
+							complete = false
+						}
+					}
+				}
+			}
+		}
+		R.check(complete, "acct-shape", "mobius.NewYAMLAccountManager: every account file is loaded", P.pos(n.Pos()), "no iteration of the file loop skips the insertion", "the loader can skip a matched account file (a path through the loop reaches the next file without inserting the account): an account that can log in and is on disk vanishes after a restart")
 		ok := false
 		eachInstr(n, func(i ssa.Instruction) {
 			if m, isM := i.(*ssa.MapUpdate); isM {
